@@ -1,7 +1,7 @@
 (* C28 — proofs, part 2: the per-library CAS cell and the recursive mutex. *)
 From Coq Require Import Arith List Bool Lia.
 Import ListNotations.
-From Cffi Require Import C28.Model C28.Proofs.
+From Cffi Require Import C28.Gen C28.Model C28.Proofs.
 
 (* ------------------------------------------------------------------ C: the CAS cell of
    _cffi_acquire_reentrant_mutex and the lazy pthread_mutex_init *)
@@ -39,7 +39,7 @@ Ltac lib_same :=
 
 Lemma stepC s tc : InvA s -> InvC s -> InvC (step s tc).
 Proof.
-  intros A C. destruct tc as [t c]. unfold step. cbv beta iota zeta.
+  intros A C. destruct tc as [t c]. ustep. cbv beta iota zeta.
   destruct (t <? nthr s) eqn:Ht; cbn [negb]; [|exact C].
   destruct (stacks s t) as [| [l p] rest] eqn:Hst.
   - destruct c; try exact C.
@@ -147,7 +147,7 @@ Qed.
 
 Lemma stepD s tc : InvA s -> InvD s -> InvD (step s tc).
 Proof.
-  intros A D. destruct tc as [t c]. unfold step. cbv beta iota zeta.
+  intros A D. destruct tc as [t c]. ustep. cbv beta iota zeta.
   destruct (t <? nthr s) eqn:Ht; cbn [negb]; [|exact D].
   destruct (stacks s t) as [| [l p] rest] eqn:Hst.
   - destruct c; try exact D.
